@@ -151,6 +151,9 @@ type Exec struct {
 	requiresSrc []string
 	scopeSrc  []string
 	vacuityPrefix int
+	quiet     int
+	devirtCache map[string]devirtCacheEntry
+	stamps    map[string]int
 }
 
 type probeInfo struct {
@@ -412,7 +415,8 @@ func (x *Exec) typeInv(v Val, st *State) string {
 	case *types.Pointer, *types.Map, *types.Signature, *types.Chan:
 		return and(sx("<=", "0", v.C[0]), sx("<", v.C[0], x.alloc(st)), x.tensorTypeInv(v, st))
 	case *types.Interface:
-		return and(sx("<=", "0", v.tag()), implies(eq(v.tag(), "0"), eq(v.pay(), "0")), sx("<=", "0", v.pay()), sx("<", v.pay(), x.alloc(st)), x.tensorTypeInv(v, st))
+		// assumption: interface values never hold typed-nil pointers
+		return and(sx("<=", "0", v.tag()), eq(eq(v.tag(), "0"), eq(v.pay(), "0")), sx("<", v.pay(), x.alloc(st)), x.tensorTypeInv(v, st))
 	case *types.Struct:
 		var cs []string
 		for i := 0; i < u.NumFields(); i++ {
@@ -435,7 +439,7 @@ func (x *Exec) typeInv(v Val, st *State) string {
 // obligations
 
 func (x *Exec) oblige(fr *Frame, kind, label string, tags []string, goal string, pc string, desc, src string) {
-	if x.probing > 0 {
+	if x.probing > 0 || x.quiet > 0 {
 		return
 	}
 	name := fmt.Sprintf("%s#%s:%s", x.topLabel, kind, label)
@@ -518,7 +522,7 @@ func (x *Exec) assemble(lines []string, o *Obligation, withModel bool, inst bool
 	var decls, extra []string
 	negGoal := sx("assert", not(o.Goal))
 	if inst {
-		decls, extra, negGoal = preInstantiate(lines, o.PC, o.Goal, 0)
+		decls, extra, negGoal = preInstantiate(lines, o.PC, o.Goal, 0, x.baseSorts())
 	}
 	for _, d := range decls {
 		b.WriteString(d + "\n")
@@ -595,4 +599,13 @@ func topoOrder(fn *ssa.Function) []*ssa.BasicBlock {
 		post[i], post[j] = post[j], post[i]
 	}
 	return post
+}
+
+// baseSorts: declared sorts of the initial heap symbols (declared in the preamble).
+func (x *Exec) baseSorts() map[string]string {
+	m := map[string]string{}
+	for c, s := range x.compSorts {
+		m[sanitize(c)+"@0"] = s
+	}
+	return m
 }
